@@ -3059,6 +3059,10 @@ Case_BaseLdurStur:
         if (sz == 0 || sz > 3)
           goto InvalidInstruction;
 
+        // 64-bit vector of D elements (.1D) is not a valid arrangement.
+        if (sz == 3 && q == 0)
+          goto InvalidInstruction;
+
         // 0 <- 90deg.
         // 1 <- 270deg.
         uint32_t rot = 0;
@@ -3149,6 +3153,10 @@ Case_BaseLdurStur:
 
         uint32_t sz = diff(o0.as<Vec>().element_type(), VecElementType::kB);
         if (sz == 0 || sz > 3)
+          goto InvalidInstruction;
+
+        // 64-bit vector of D elements (.1D) is not a valid arrangement.
+        if (sz == 3 && q == 0)
           goto InvalidInstruction;
 
         uint32_t rot = 0;
@@ -3618,6 +3626,10 @@ Case_BaseLdurStur:
             if (q > 1 || sz > 2)
               goto InvalidInstruction;
 
+            // 64-bit vector of D elements (.1D) is not a valid arrangement.
+            if (sz == 2 && q == 0)
+              goto InvalidInstruction;
+
             static const uint32_t sz_bits_table[3] = { B(11), 0, B(29) };
             opcode.reset(0b00001111000000001111010000000000);
             opcode ^= sz_bits_table[sz];
@@ -3669,6 +3681,10 @@ Case_BaseLdurStur:
 
         uint32_t sz = diff(o0.as<Vec>().element_type(), VecElementType::kH);
         if (sz > 2)
+          goto InvalidInstruction;
+
+        // 64-bit vector of D elements (.1D) is not a valid arrangement.
+        if (sz == 2 && q == 0)
           goto InvalidInstruction;
 
         static const uint32_t sz_bits_table[3] = { B(22) | B(21) | B(15) | B(14), 0, B(22) };
